@@ -131,6 +131,24 @@ def build_client_rx(item: dict[str, Any], box: dict[str, Any]) -> Any:
         results: list[tuple[Any, ...]] = []
         box.update(results=results, net=net, src=src, n=len(msgs))
         loop = run.loop
+        if item.get("trace"):
+            # as after gallia.log.setup_logging(): the "gallia" logger lets TRACE records through (to a handler that drops them)
+            import logging
+
+            lg = logging.getLogger("gallia")
+            prev = (lg.level, logging.root.manager.disable)
+            logging.disable(logging.NOTSET)
+            lg.setLevel(5)
+            if not any(isinstance(h, logging.NullHandler) for h in lg.handlers):
+                lg.addHandler(logging.NullHandler())
+            lg.propagate = False
+
+            def restore() -> None:
+                lg.setLevel(prev[0])
+                logging.disable(prev[1])
+                net.uninstall()
+
+            box["restore"] = restore
 
         async def drv() -> None:
             if item["side"] == "unix":
@@ -154,7 +172,7 @@ def build_client_rx(item: dict[str, Any], box: dict[str, Any]) -> Any:
 
         task = loop.create_task(drv(), name="driver")
         run.done = task.done
-        run.finish = net.uninstall  # type: ignore[attr-defined]
+        run.finish = box.get("restore", net.uninstall)  # type: ignore[attr-defined]
 
     return scenario
 
@@ -700,6 +718,13 @@ def items(tier: str, seed: int) -> list[Any]:
             # requests that take differing times inside the ECU; two testers on one virtual ECU
             out.append(({"mode": "server", "msgs": sq + sq[::-1] + sq, "seg": "one", "delays": [0.3, 0.0, 0.1]}, 1, cap))
             out.append(({"mode": "server2", "msgs": sq + sq[::-1], "seg": "msgs"}, 2 if len(sq) == 1 else 1, cap))
+    # with TRACE logging enabled (every gallia command runs like that): same messages, same oracle
+    for sq in ([(255, "asc")], [(4095, "asc")], [(255, "ff"), (4095, "0a0d"), (2, "00")], [(1, "00"), (255, "00")]):
+        for side in ("tcp", "unix"):
+            for seg in ("one", "msgs"):
+                out.append(({"mode": "rx", "side": side, "msgs": sq, "seg": seg, "trace": True}, 0, cap))
+        out.append(({"mode": "tx", "side": "tcp", "msgs": sq, "trace": True}, 0, cap))
+        out.append(({"mode": "server", "msgs": sq, "seg": "one", "trace": True}, 0, cap))
     # leftovers of one connection must not reach another (reconnect, two transports at once)
     for sq in ([(2, "asc"), (1, "00")], [(1, "ff"), (2, "0a0d"), (255, "asc")], [(255, "00"), (255, "ff")]):
         for side in ("tcp", "unix"):
